@@ -726,6 +726,8 @@ class CallMixin:
     def x_setattr(self, args: List[V], kwargs: Dict[str, V], node: Any) -> Optional[V]:
         if len(args) == 3:
             self.emit("write", node, how="setattr_call", target=args[0], attr=args[1], value=args[2])
+            if isinstance(args[0], Inst) and isinstance(args[1], Const) and isinstance(args[1].value, str):
+                args[0].attrs[args[1].value] = args[2]          # setattr(obj, "name", v) is obj.name = v
         return Const(None)
 
     def _concat(self, seqs: List[V], node: Any) -> V:
@@ -783,6 +785,13 @@ class CallMixin:
             return Const(t) if t is not None else args[0]
         if name == "getitem" and len(args) == 2:
             return self.getitem(args[0], args[1], node)
+        return None
+
+    def x_object(self, args: List[V], kwargs: Dict[str, V], node: Any) -> Optional[V]:
+        if not args and not kwargs:
+            # a fresh `object()`: a sentinel, identical to itself and to nothing else
+            s_ = Sym(f"<object@{getattr(node, 'lineno', 0)}>", "object", ("sentinel",), exact=True)
+            return s_
         return None
 
     def x_reversed(self, args: List[V], kwargs: Dict[str, V], node: Any) -> Optional[V]:
